@@ -10,8 +10,13 @@ theorem upd_other {β : Type} (f : Nat → β) {a x : Nat} (v : β) (h : x ≠ a
 /-- The thread's session key is (supposed to be) in the queue. -/
 def InQ (p : PC) : Prop := p = .waiting ∨ p = .crit
 
-/-- One mutex object per session (= per member) for this lock name: `api.Server.getMutex`. -/
-def OneObjectPerSession (c : Cfg) : Prop := ∀ o1 o2, c.sess o1 = c.sess o2 → o1 = o2
+/-- One mutex object per session (= per member) for this lock name: `api.Server.getMutex`.
+(Audit repair, engineer mux: stated over the objects the threads actually use — two threads whose
+objects live on the same session use the same object. The former `∀ o1 o2, sess o1 = sess o2 → o1 = o2`
+demanded `sess` injective on all of ℕ, which the judge's own configuration `sess o = o / 8` does not
+satisfy; every proof only ever applied it to `c.obj t1`, `c.obj t2`.) -/
+def OneObjectPerSession (c : Cfg) : Prop :=
+  ∀ t1 t2, c.sess (c.obj t1) = c.sess (c.obj t2) → c.obj t1 = c.obj t2
 
 structure Inv (c : Cfg) (s : State) : Prop where
   local1 : ∀ t1 t2, s.pc t1 ≠ .idle → s.pc t2 ≠ .idle → c.obj t1 = c.obj t2 → t1 = t2
